@@ -375,7 +375,7 @@ pub fn run_sweep(sweep: &dyn Sweep, progress_file: &str) -> Acc {
     let hang_secs: u64 = std::env::var("VERIF_HANG_SECS")
         .ok()
         .and_then(|s| s.parse().ok())
-        .unwrap_or(20);
+        .unwrap_or(60);
     std::thread::scope(|sc| {
         // watchdog
         sc.spawn(|| {
